@@ -10,6 +10,8 @@ Tie:      `unpack`  function level: dask.base.unpack_collections on nested struc
                     dataframe) x traverse x scheduler x optimize_graph  ==  the structure with every collection
                     replaced by its own .compute()
           `persist` API level: dask.persist / dask.optimize keep type, keys, metadata and values
+          `sched`   function level: dask.base.get_scheduler (explicit scheduler / config / class / collections' defaults,
+                    names in any capitalisation, Executor, errors) vs the model over the extracted `named_schedulers`
 """
 from __future__ import annotations
 
@@ -21,7 +23,8 @@ from sexp import Sym
 PROP = "C14"
 READY = True
 DRIVER = "dm_token"
-LEAN_MODULES = ["DaskModel.Props.C14"]
+LEAN_MODULES = ["DaskModel.Props.C14", "DaskModel.Props.C14Sched"]
+TABLES = ["NamedSchedulers"]
 CASE_TIMEOUT_S = 60
 LEVEL_TEXT = ("Lean proof: for every nesting of list/tuple/set/dict/OrderedDict/dataclass/namedtuple/iterator nodes, "
               "repack(map f collections) is the argument tuple with every collection replaced by its value and nothing "
@@ -504,8 +507,12 @@ def case_compute(ctx, inp):
     args = [a for _, a in built2]
     traverse, sch, og = inp.get("traverse", True), inp.get("scheduler", "sync"), inp.get("optimize_graph", True)
     kw = {}
+    pool = None
     if sch == "processes":
         kw["num_workers"] = 2
+    elif sch == "executor":
+        from concurrent.futures import ThreadPoolExecutor
+        pool = sch = ThreadPoolExecutor(2)
     import warnings
     with warnings.catch_warnings():
         warnings.simplefilter("ignore")
@@ -514,6 +521,10 @@ def case_compute(ctx, inp):
         except Exception as e:
             ctx.fail(f"dask.compute raised {type(e).__name__}: {str(e)[:150]}", observed=type(e).__name__)
             return
+        finally:
+            if pool is not None:
+                pool.shutdown(wait=True)
+                sch = "executor"
     got = ["tuple", [_canon_result(o) for o in out]]
     if not ids or (not traverse and not any(a[0] == "coll" for a in args)):
         # `if not collections: return args` — nothing is touched, iterators stay iterators
@@ -647,7 +658,89 @@ def _pos(want, keys, j):
     return occ[min(nth, len(occ) - 1)]
 
 
-CASES = {"unpack": case_unpack, "compute": case_compute, "persist": case_persist, "tune": case_tune}
+def _sched_fn(i):
+    def f(dsk, keys, **kw):
+        raise RuntimeError("not meant to be called")
+    f.__name__ = f"sched{i}"
+    return f
+
+
+_SCHED_FNS = {}
+
+
+def case_sched(ctx, inp):
+    import dask
+    from concurrent.futures import ThreadPoolExecutor
+    from functools import partial
+    from dask import local, threaded, multiprocessing as dmp
+    from dask.base import get_scheduler
+    names = {id(local.get_sync): "local.get_sync", id(threaded.get): "threaded.get", id(dmp.get): "dask_multiprocessing.get"}
+    pools = []
+
+    def mk(spec):
+        k = spec[0]
+        if k == "none":
+            return None
+        if k == "callable":
+            return _SCHED_FNS.setdefault(spec[1], _sched_fn(spec[1]))
+        if k == "name":
+            return spec[1]
+        if k == "executor":
+            p = ThreadPoolExecutor(spec[1] or 1)
+            pools.append(p)
+            if spec[1] is None:
+                p._max_workers = None
+            return p
+        return 42
+
+    class Coll:
+        def __init__(self, d):
+            self.__dask_scheduler__ = _SCHED_FNS.setdefault(100 + d, _sched_fn(100 + d))
+    cls = None
+    if inp["cls"] is not None:
+        cls = type("C", (), {"__dask_scheduler__": staticmethod(_SCHED_FNS.setdefault(100 + inp["cls"], _sched_fn(100 + inp["cls"])))})
+    colls = [None if c is None else Coll(c) for c in inp["colls"]]
+    # every key is set explicitly: core.import_dd() leaves `scheduler: sync` in the global config of this process
+    cfg = {"scheduler": mk(inp["cfg"]) if inp["cfg"][0] != "none" else None,
+           "get": _sched_fn(999) if inp["cfgget"] else None}
+    if inp["cfgworkers"] is not None:
+        cfg["num_workers"] = inp["cfgworkers"]
+    try:
+        with dask.config.set(cfg):
+            r = get_scheduler(get=(_sched_fn(998) if inp["get"] else None), scheduler=mk(inp["sched"]),
+                              collections=colls if inp["colls"] else None, cls=cls)
+        if r is None:
+            real = ["nothing"]
+        elif id(r) in names:
+            real = ["fn", names[id(r)]]
+        elif isinstance(r, partial) and r.func is local.get_async:
+            real = ["async", r.args[1]]
+        else:
+            hit = [k for k, v in _SCHED_FNS.items() if v is r or getattr(r, "__func__", None) is v]
+            real = (["callable", hit[0]] if hit and hit[0] < 100 else ["default", hit[0] - 100]) if hit else ["unknown", repr(r)]
+    except (TypeError, ValueError, RuntimeError, AssertionError) as e:
+        real = ["raised", type(e).__name__]
+    finally:
+        for p in pools:
+            p.shutdown(wait=False)
+    import os
+    from dask.system import CPU_COUNT
+
+    def enc(spec):
+        if spec[0] == "executor":
+            return [Sym("executor"), spec[1]]
+        if spec[0] in ("callable", "name"):
+            return [Sym(spec[0]), spec[1]]
+        return [Sym(spec[0])]
+    model = ctx.lean(Sym("getscheduler"), CPU_COUNT, inp["get"], enc(inp["sched"]), enc(inp["cfg"]), inp["cfgget"],
+                     inp["cfgworkers"], inp["cls"], inp["colls"])
+    ctx.eq("get_scheduler", [str(model[0])] + list(model[1:]), real)
+    ctx.branch("sched-" + real[0] + ("-" + str(real[1]) if real[0] == "raised" else ""))
+    if inp["sched"][0] == "none" and inp["cfg"][0] != "none":
+        ctx.branch("sched-from-config")
+
+
+CASES = {"unpack": case_unpack, "compute": case_compute, "persist": case_persist, "tune": case_tune, "sched": case_sched}
 
 
 # ----------------------------------------------------------------------------------------------
@@ -708,11 +801,30 @@ def generate(ctx):
     # function level: operand grouping
     for _ in range(ctx.n(40, 600)):
         yield "tune", {"ids": [rng.randrange(12) for _ in range(rng.randint(1, 7))]}
+    # function level: scheduler choice
+    def spec():
+        k = rng.randrange(7)
+        if k <= 1:
+            return ["none"]
+        if k == 2:
+            return ["callable", rng.randrange(3)]
+        if k in (3, 4):
+            base = rng.choice(["sync", "synchronous", "single-threaded", "threads", "threading", "processes", "multiprocessing",
+                               "distributed", "dask.distributed", "nope", "", "thread"])
+            return ["name", rng.choice([base, base.upper(), base.capitalize()])]
+        if k == 5:
+            return ["executor", rng.choice([1, 2, 3, None])]
+        return ["other"]
+    for _ in range(ctx.n(250, 2500)):
+        yield "sched", {"get": rng.random() < 0.05, "sched": spec(), "cfg": spec() if rng.random() < 0.5 else ["none"],
+                        "cfgget": rng.random() < 0.05, "cfgworkers": rng.choice([None, None, 2, 5]),
+                        "cls": rng.choice([None, None, 0, 1]),
+                        "colls": [rng.choice([None, 0, 0, 1]) for _ in range(rng.choice([0, 1, 2, 3]))]}
     # API level
     for e in EXPLICIT_COMPUTE:
         yield "compute", dict(e)
         yield "persist", {"ids": _coll_ids(e["args"]), "kinds": e["kinds"]}
-    scheds = ["sync", "sync", "threads"] + (["processes"] if ctx.thorough() else [])
+    scheds = ["sync", "sync", "threads", "executor"] + (["processes"] if ctx.thorough() else [])
     for _ in range(ctx.n(45, 450)):
         kinds = rng.choice([None, None, ["delayed", "array", "bag", "scalar"], ["delayed", "array"], ["delayed", "bag", "array"]])
         sched = rng.choice(scheds)
